@@ -972,6 +972,7 @@ def BRule.selEmpty : BRule → Bool
 structure St where
   builders : Builders
   next : Nat
+  deriving Inhabited
 
 def St.renumber (bs : Builders) (n : Nat) : St :=
   let r := numberBuilders bs n
